@@ -64,8 +64,22 @@ void profile_roundtrip(const json& plan, Ctx& ctx) {
 	auto nif = std::make_unique<NifFile>();
 	std::string F0;
 	setStage("init");
+	if (plan.contains("prior")) {
+		// F-REUSE: the object has done another job before (another file, possibly of another version, loaded and saved)
+		setStage("synth:prior-job");
+		if (makeInitial(plan["prior"], *nif, ctx)) { saveNif(*nif, SaveSpec()); ctx.fault("F-REUSE"); ctx.probe("object_had_a_prior_job"); }
+		else nif = std::make_unique<NifFile>();
+		setStage("init");
+	}
+	const bool hadPrior = plan.contains("prior");
 	if (!makeInitial(plan["init"], *nif, ctx, &F0)) { ctx.info["rejected_init"] = true; ctx.probe("rejected_input"); return; }
 	ctx.sig.str(plan["init"].dump());
+	if (F0.empty() && hadPrior) {
+		// keep the object: its first save of the new model is the stored file
+		setStage("synth:store-F0");
+		F0 = saveNif(*nif, SaveSpec()).bytes;
+		if (loadNif(*nif, F0).rc != 0) { ctx.info["rejected_init"] = true; ctx.probe("rejected_input"); return; }
+	}
 	if (F0.empty()) {
 		// the initial model was built or edited in memory: its first save is the stored file F0 the cycles start from
 		setStage("synth:store-F0");
